@@ -1,5 +1,10 @@
 package main
 
+import (
+	"fmt"
+	"time"
+)
+
 const coordPkg = "tkestack.io/kvass/pkg/coordinator"
 
 var wfAssumptions = []string{
@@ -29,7 +34,7 @@ func propTable() map[string]PropSpec {
 	t["C01"] = PropSpec{
 		ID: "C01", Pkg: coordPkg, NativeDir: "coordinator",
 		Quick:    append([]HarnessRun{H("VGC", 8, 2, 2), H("VRelief", 4, 2, 1, 0), H("VRelief", 4, 2, 2, 1), H("VAssign", 4, 2, 2), H("VScaleDown", 4, 2, 1), H("VCycle", 12, 1, 1, 3), H("VCycle", 4, 2, 0, 2), H("VCycle", 6, 2, 1, 32), H("VCycle", 4, 2, 1, 24), H("VTransfer", 4), {Entry: "VUpdateTarget", Pkg: "tkestack.io/kvass/pkg/shard", Args: []int{2}, Cosim: 8}}, lemmas...),
-		Thorough: append([]HarnessRun{H("VGC", 8, 2, 2), H("VGC", 8, 3, 1), H("VGC", 8, 3, 2), H("VRelief", 4, 2, 2, 1), H("VRelief", 4, 3, 1, 0), H("VAssign", 4, 2, 2), H("VAssign", 4, 3, 1), H("VScaleDown", 4, 2, 2), H("VScaleDown", 4, 3, 1), H("VCycle", 16, 1, 1, 3), H("VCycle", 8, 1, 2, 0), H("VCycle", 8, 2, 1, 0), H("VCycle", 4, 3, 0, 2), H("VTransfer", 4), {Entry: "VUpdateTarget", Pkg: "tkestack.io/kvass/pkg/shard", Args: []int{3}, Cosim: 8}}, lemmas...),
+		Thorough: append([]HarnessRun{H("VGC", 8, 3, 1), H("VGC", 8, 3, 2), H("VRelief", 4, 2, 2, 2), H("VAssign", 4, 3, 1), H("VScaleDown", 4, 2, 2), {Entry: "VUpdateTarget", Pkg: "tkestack.io/kvass/pkg/shard", Args: []int{3}, Cosim: 8}}, lemmas...),
 		Required: []string{"gc.removed", "gc.rule1", "c01.reported", "c01.removed", "relief.moved", "assign.placed", "cycle.end"},
 		Prefixes: []string{"C01."},
 		Bounds:   "phase lemmas (gcTargets, alleviateShards, assignNoScrapingTargets, tryScaleDown) from arbitrary well-formed pre-states with S<=2 shards, K<=2 hashes (thorough S<=3); whole runOnce cycles at (S,K) = (1,1) with failing POSTs / ChangeScale and (2,0) (thorough + (1,2), (2,1), (3,0)); every map-iteration order and random pick; loop unwinding 12 with unwinding assertion",
@@ -38,7 +43,7 @@ func propTable() map[string]PropSpec {
 	t["C04"] = PropSpec{
 		ID: "C04", Pkg: coordPkg, NativeDir: "coordinator",
 		Quick:    append([]HarnessRun{H("VTransfer", 4), H("VRelief", 6, 2, 1, 0), H("VRelief", 4, 2, 2, 1), H("VAssign", 6, 2, 2), H("VScaleDown", 6, 2, 2), H("VCycle", 12, 1, 1, 0)}, lemmas...),
-		Thorough: append([]HarnessRun{H("VTransfer", 4), H("VRelief", 6, 2, 2, 1), H("VRelief", 6, 3, 1, 0), H("VAssign", 6, 2, 2), H("VAssign", 6, 3, 2), H("VScaleDown", 6, 2, 2), H("VScaleDown", 6, 3, 1), H("VCycle", 12, 1, 1, 0), H("VCycle", 8, 1, 2, 0), H("VCycle", 8, 2, 1, 8), H("VCycle", 8, 2, 2, 8)}, lemmas...),
+		Thorough: append([]HarnessRun{H("VRelief", 6, 2, 2, 2), H("VAssign", 6, 3, 2)}, lemmas...),
 		Required: []string{"relief.placed", "assign.placed", "scaledown.placed", "c04.placed", "c04.scalecall"},
 		Prefixes: []string{"C04."},
 		Bounds:   "one lemma per placement site (head relief, process relief, first assignment, scale-down transfer) with S<=2, K<=2 (thorough S<=3); whole cycles at (1,1) (thorough + (1,2), and (2,1), (2,2) with all shards in sync); with and without a head-series limit",
@@ -47,7 +52,7 @@ func propTable() map[string]PropSpec {
 	t["C05"] = PropSpec{
 		ID: "C05", Pkg: coordPkg, NativeDir: "coordinator",
 		Quick:    []HarnessRun{H("VGC", 8, 2, 1), H("VGC", 8, 2, 2), H("VTransfer", 2), H("VRelief", 4, 2, 1, 0), H("VRelief", 4, 2, 2, 1), H("VScaleDown", 4, 2, 1), H("VCycle", 8, 1, 1, 0), H("VCycle", 8, 2, 1, 40), H("VCycle", 4, 2, 1, 24)},
-		Thorough: []HarnessRun{H("VGC", 8, 2, 2), H("VGC", 8, 3, 1), H("VGC", 8, 3, 2), H("VTransfer", 2), H("VCycle", 8, 2, 1, 8), H("VRelief", 4, 2, 2, 1), H("VRelief", 4, 3, 1, 0), H("VScaleDown", 4, 2, 2), H("VScaleDown", 4, 3, 1), H("VCycle", 8, 2, 1, 0), H("VCycle", 8, 2, 2, 8)},
+		Thorough: []HarnessRun{H("VGC", 8, 3, 1), H("VGC", 8, 3, 2), H("VRelief", 4, 2, 2, 2), H("VScaleDown", 4, 2, 2), {Entry: "VCycle", Args: []int{2, 1, 8}, Cosim: 8, Subst: swr, Timeout: 40 * time.Minute}},
 		Required: []string{"gc.handover", "gc.removed", "relief.moved", "scaledown.moved", "c05.moved", "c05.handover"},
 		Prefixes: []string{"C05."},
 		Bounds:   "gcTargets / relief / scale-down lemmas with S<=2, K<=2 (thorough S<=3); whole cycles at (1,1), (2,1) (thorough (2,1) with every shard kind, (2,2) in sync); the constant 3 of the hand-over rule is taken from README, not from the code",
@@ -57,7 +62,7 @@ func propTable() map[string]PropSpec {
 	t["C07"] = PropSpec{
 		ID: "C07", Pkg: coordPkg, NativeDir: "coordinator",
 		Quick:    []HarnessRun{H("VScaleDown", 6, 2, 1), H("VScaleDown", 6, 3, 1), H("VCycle", 12, 1, 1, 0), H("VCycle", 8, 2, 0, 0), H("VCycle", 6, 2, 1, 32)},
-		Thorough: []HarnessRun{H("VScaleDown", 6, 2, 2), H("VScaleDown", 6, 3, 1), H("VScaleDown", 6, 3, 2), H("VCycle", 12, 1, 1, 2), H("VCycle", 8, 1, 2, 0), H("VCycle", 8, 2, 1, 0), H("VCycle", 4, 3, 0, 0), H("VCycle", 4, 4, 0, 8)},
+		Thorough: []HarnessRun{H("VScaleDown", 6, 2, 2), H("VCycle", 12, 1, 1, 2), H("VCycle", 4, 4, 0, 8)},
 		Required: []string{"scaledown.end", "c07.scalecall", "scaledown.moved"},
 		Prefixes: []string{"C07."},
 		Bounds:   "every ChangeScale argument of whole cycles at (S,K) = (1,1), (2,0), (3,0) (thorough + (1,2), (2,1), (4,0) in sync) with symbolic idle instants against a symbolic clock; tryScaleDown lemma with S<=3, K<=2",
@@ -67,7 +72,7 @@ func propTable() map[string]PropSpec {
 	t["C08"] = PropSpec{
 		ID: "C08", Pkg: coordPkg, NativeDir: "coordinator",
 		Quick:    []HarnessRun{H("VCycle", 12, 1, 1, 7), H("VCycle", 6, 2, 0, 4), H("VCycle", 6, 2, 1, 32), H("VAssign", 4, 2, 2), H("VRelief", 4, 2, 1, 0), H("VRelief", 4, 2, 2, 1), H("VScaleDown", 4, 2, 1), H("VScaleDown", 4, 3, 1)},
-		Thorough: []HarnessRun{H("VCycle", 12, 1, 1, 7), H("VCycle", 6, 1, 2, 4), H("VCycle", 6, 2, 1, 4), H("VAssign", 4, 3, 2), H("VRelief", 4, 2, 2, 1), H("VRelief", 4, 3, 1, 0), H("VScaleDown", 4, 3, 1)},
+		Thorough: []HarnessRun{H("VAssign", 4, 3, 2), H("VRelief", 4, 2, 2, 2)},
 		Required: []string{"c08.unready", "c08.statusfail", "c08.runtimefail", "c08.hashdiffers", "c08.outofsync", "c08.insync", "c08.heldoutofsync", "assign.placed"},
 		Prefixes: []string{"C08."},
 		Bounds:   "complete request log per shard under the full seven-step health script (ready, status GET, runtime GET, hash, config POST, second runtime GET, hash) at (S,K) = (1,1) incl. failing POSTs, (2,0) (thorough + (1,2), (2,1)); destination-is-in-sync lemmas for every placement site with S<=3",
@@ -106,7 +111,7 @@ func propTable() map[string]PropSpec {
 	t["C09"] = PropSpec{
 		ID: "C09", Pkg: sidePkg, NativeDir: "sidecar",
 		Quick:    []HarnessRun{{Entry: "VStoreCrash", Args: []int{1}, Cosim: 12}, {Entry: "VTMRestart", Args: []int{1}, Cosim: 6}, {Entry: "VTMRestart", Args: []int{2}, Cosim: 6}},
-		Thorough: []HarnessRun{{Entry: "VStoreCrash", Args: []int{2}, Cosim: 16}, {Entry: "VTMRestart", Args: []int{2}, Cosim: 8}},
+		Thorough: []HarnessRun{{Entry: "VTMRestart", Args: []int{2}, Cosim: 8}},
 		Required: []string{"fs.write.ok", "fs.write.err.before", "fs.write.err.partial", "fs.kill.before", "fs.kill.partial", "fs.rename", "store.old", "store.end", "restart.end", "restart.second.refused"},
 		Prefixes: []string{"C09."},
 		Bounds:   "two consecutive arbitrary assignments over K<=1 hashes (thorough 2), both states, empty sets; the second update interrupted by each store fault (error before / after a proper prefix, process killed before / part-way / one byte before the end of the document); then two consecutive restarts; old-version store file present or not; the store written through ioutil.WriteFile or through os.OpenFile + Write (+ Sync, Close), followed by os.Rename",
@@ -164,7 +169,7 @@ func propTable() map[string]PropSpec {
 	t["C03"] = PropSpec{
 		ID: "C03", Pkg: coordPkg, LoadPkgs: []string{"tkestack.io/kvass/pkg/sidecar"}, NativeDir: "coordinator",
 		Quick:    append([]HarnessRun{H("VAssign", 6, 2, 2), H("VCycle", 12, 1, 1, 0), H("VCycle", 6, 2, 0, 0), {Entry: "VUpdateTarget", Pkg: "tkestack.io/kvass/pkg/shard", Args: []int{2}, Cosim: 4}, L("VLoop", 8, 2, 1, 5, 0)}, lemmas...),
-		Thorough: append([]HarnessRun{H("VAssign", 6, 3, 2), H("VCycle", 12, 1, 1, 0), H("VCycle", 8, 1, 2, 0), H("VCycle", 8, 2, 1, 8), H("VCycle", 8, 2, 1, 0), L("VLoop", 8, 2, 1, 5, 0), L("VLoop", 8, 3, 1, 6, 0), {Entry: "VLoop", Args: []int{2, 2, 6, 16}, Subst: swr, Unwind: 40, Cosim: 0, MergeAt: []string{coordPkg + ".vLoopCycle"}}, {Entry: "VUpdateTarget", Pkg: "tkestack.io/kvass/pkg/shard", Args: []int{3}, Cosim: 4}}, lemmas...),
+		Thorough: append([]HarnessRun{H("VAssign", 6, 3, 2), L("VLoop", 8, 3, 1, 6, 0), {Entry: "VLoop", Args: []int{2, 2, 6, 16}, Subst: swr, Unwind: 40, Cosim: 0, MergeAt: []string{coordPkg + ".vLoopCycle"}}, {Entry: "VUpdateTarget", Pkg: "tkestack.io/kvass/pkg/shard", Args: []int{3}, Cosim: 4}}, lemmas...),
 		Required: []string{"c03.placed", "c03.allinsync", "c03.stability.checked", "assign.placed", "shard.update.keys.same", "loop.ran", "loop.end", "loop.overloaded"},
 		Prefixes: []string{"C03.", "C01.shard.update.", "C01.c.loop."},
 		Bounds:   "multi-cycle layer: closed loop of the real coordinator with S=2 (thorough 3) real sidecar bookkeepers (TargetsManager + runtimeInfo over the abstract store), K=1 target of concrete size, limits 1000 / 500-or-none, max-idle-time 0 or 1h, every initial placement (absent / normal / in_transfer per shard, scraped or not, shard 0 overloaded or not), 3 scrapes per assigned target and 2 h between cycles: converged within H=5 (6) cycles and one further cycle changes nothing; thorough adds one K=2 scenario (two targets spread over two shards, every scrape / limit / idle-time variant, 6 cycles, equal states merged at cycle boundaries); single-cycle layer: scale-up clause, at-most-once / normal-state placement, placement-when-room (K=1) and the no-op-from-a-converged-state clause on whole cycles at (S,K) = (1,1), (2,0) (thorough + (1,2), (2,1)); assignNoScrapingTargets lemma with S<=2 (3), K<=2",
@@ -174,12 +179,12 @@ func propTable() map[string]PropSpec {
 	t["C06"] = PropSpec{
 		ID: "C06", Pkg: coordPkg, LoadPkgs: []string{"tkestack.io/kvass/pkg/sidecar"}, NativeDir: "coordinator",
 		Quick:    []HarnessRun{H("VCycle", 12, 1, 1, 0), H("VCycle", 8, 2, 1, 40), {Entry: "VUpdateTarget", Pkg: "tkestack.io/kvass/pkg/shard", Args: []int{2}, Cosim: 4}, L("VLoop", 8, 2, 1, 6, 1)},
-		Thorough: []HarnessRun{H("VCycle", 12, 1, 1, 0), H("VCycle", 8, 2, 1, 0), H("VCycle", 8, 2, 2, 8), {Entry: "VUpdateTarget", Pkg: "tkestack.io/kvass/pkg/shard", Args: []int{3}, Cosim: 4}, L("VLoop", 8, 2, 1, 6, 1), L("VLoop", 8, 3, 1, 7, 1)},
+		Thorough: []HarnessRun{{Entry: "VUpdateTarget", Pkg: "tkestack.io/kvass/pkg/shard", Args: []int{3}, Cosim: 4}, L("VLoop", 8, 3, 1, 7, 1), L("VLoop", 4, 2, 1, 7, 2)},
 		Required: []string{"c06.lone", "c06.duplicate", "shard.update.keys.same", "loop.fault", "loop.end"},
 		Prefixes: []string{"C06.", "C01.shard.update.", "C03.loop.", "C01.c.loop."},
-		Bounds:   "multi-cycle layer: the closed loop of C03 (S=2, thorough 3; K=1) with one fault at cycle 0 or 1 on any shard - a lost target POST, a shard not ready for one cycle, a sidecar restarted from its store - followed by fault-free cycles: converged within H=6 (7) cycles; single-cycle progress lemmas from the states faults leave behind (a lone in_transfer copy; two copies on in-sync shards in every state / load / counter combination) on whole cycles at (S,K) = (1,1), (2,1) (thorough + (2,2) in sync)",
+		Bounds:   "multi-cycle layer: the closed loop of C03 (S=2, thorough 3; K=1) with one fault at cycle 0 or 1 on any shard - a lost target POST, a shard not ready for one cycle, a sidecar restarted from its store - followed by fault-free cycles: converged within H=6 (7) cycles; thorough also two faults (the second one or two cycles after the first, any shard, any kind) at S=2 within 7 cycles; single-cycle progress lemmas from the states faults leave behind (a lone in_transfer copy; two copies on in-sync shards in every state / load / counter combination) on whole cycles at (S,K) = (1,1), (2,1) (thorough + (2,2) in sync)",
 		Assume:   wfAssumptions,
-		Outside:  append([]string{"more than one fault per run, faults later than cycle 1, K>=2 in the closed loop", "a shard removed by scaling as an injected fault (scale-down happens only as the coordinator's own decision in the idle-time variant)"}, cycleOutside...),
+		Outside:  append([]string{"more than two faults per run, a first fault later than cycle 1, K>=2 in the closed loop", "a shard removed by scaling as an injected fault (scale-down happens only as the coordinator's own decision in the idle-time variant)"}, cycleOutside...),
 	}
 	t["C19"] = PropSpec{
 		ID: "C19", Pkg: coordPkg, NativeDir: "coordinator",
@@ -228,6 +233,21 @@ func propTable() map[string]PropSpec {
 		Bounds:   "targetsFromGroup / populateLabels / targetHash / labelsWithoutConfigParam / supportInvalidLabelName (and labels.New, labels.Builder, sort.Sort, scrape.NewTarget / Target.URL from source) on a group of 1 target (dedupe: 2 targets) with the labels __address__ (concrete, with and without port), foo and an invalid name \"bad-name\" with symbolic values, an optional __meta_ label with a symbolic value, every split of the labels between group and target and every map-iteration order; no relabel rules; sensitivity: two targets differing only in the (symbolic, different) value of one surviving label - ordinary (foo) or reserved but neither __meta_ nor URL-forming (__tmp_x, __scrape_interval__) - can get different hashes (satisfiability query with the hash functions uninterpreted: holds exactly when the label value reaches the hash input)",
 		Assume:   []string{"xxhash (labels.Labels.Hash) and FNV-64a are uninterpreted functions of exactly what is fed to them (label names and values in order; the formatted label hash; the URL string): equal inputs give equal hashes, nothing is assumed about different inputs", "relabel.Process is the identity (the job has no relabel rules); net.SplitHostPort, CheckTargetAddress and the label-name / label-value validity tests run on concrete strings", "symbolic label values range over non-empty valid UTF-8 strings"},
 		Outside:  []string{"'targets that differ in any label or URL component get different hashes' as such is collision-freeness of xxhash/FNV and is not a bounded solver query; what is decided is that every surviving label reaches the hash input (sensitivity clause)", "stability across processes and restarts beyond independence of iteration order, addresses and time (any such dependence would be an un-stubbed call and abort the path)", "relabel programs (C02)"},
+	}
+	// the thorough tier of a property is its deeper configurations followed by everything the quick
+	// tier runs (a configuration listed in both keeps the thorough settings)
+	for id, sp := range t {
+		seen := map[string]bool{}
+		var out []HarnessRun
+		for _, r := range append(append([]HarnessRun{}, sp.Thorough...), sp.Quick...) {
+			k := r.Pkg + "." + r.Entry + fmt.Sprint(r.Args)
+			if !seen[k] {
+				seen[k] = true
+				out = append(out, r)
+			}
+		}
+		sp.Thorough = out
+		t[id] = sp
 	}
 	return t
 }
